@@ -416,6 +416,10 @@ Theorem C04_from_float_exact_lowest_terms : forall man e,
 Proof. exact from_float_asis_spec. Qed.
 Print Assumptions C04_from_float_exact_lowest_terms.
 
+Theorem C04_from_integer : forall v, from_int_asis v = canon v 1 /\ Inv (from_int_asis v).
+Proof. exact from_int_asis_spec. Qed.
+Print Assumptions C04_from_integer.
+
 (* rational/src/iter.rs is not declared in lib.rs: there is no Sum / Product for RBig / Relaxed to cover *)
 Theorem C04_iter_rs_is_not_a_module : gen_ratio_iter_is_a_module = false.
 Proof. exact iter_not_a_module. Qed.
